@@ -125,7 +125,19 @@ def run(ctx):
         h = o[1]
         if getattr(h, 'is_vacuous', False):
             continue
-        check_refs(h.condition, sch, aliases, text, feats)
+        if not check_refs(h.condition, sch, aliases, text, feats):
+            continue
+        # third clause on the predicate itself: the schema check accepts what the model resolves
+        this_tok = hplapi.type_token(sch, 'T', rng)
+        var_toks = {a: hplapi.type_token(st, 'A_' + a, rng) for a, st in aliases.items()}
+        oc = hplapi.outcome(lambda: h.type_check_references(this_tok, variables=var_toks))
+        ctx.count('predicate_schema_checks')
+        if oc[0] != 'ok':
+            ctx.violation('schema-check-rejects-valid', {'predicate': text, 'schema': gen.schema_shape(sch)[:200],
+                                                         'error': hplapi.exc_class(oc), 'message': str(oc[1])[:240]},
+                          feats | {'exc:' + hplapi.exc_class(oc), 'api:type_check_references'})
+        elif oc[1] is False:  # "succeeds" = does not raise; only an explicit False would signal failure by value
+            ctx.violation('schema-check-returns-value', {'predicate': text, 'result': repr(oc[1])[:100]}, feats)
 
     for n in range(ctx.share(B['props'])):
         pg = gen.PropGen(rng, maxdepth=rng.randrange(1, 4), max_width=rng.choice((1, 2, 3)), kw_names=0.05)
@@ -170,7 +182,7 @@ def run(ctx):
         if oc[0] != 'ok':
             ctx.violation('schema-check-rejects-valid', {'property': text, 'error': hplapi.exc_class(oc),
                                                          'message': str(oc[1])[:240]}, feats | {'exc:' + hplapi.exc_class(oc)})
-        elif oc[1] is not None:
+        elif oc[1] is False:
             ctx.violation('schema-check-returns-value', {'property': text, 'result': repr(oc[1])[:100]}, feats)
         else:
             ctx.count('schema_checks_passed')
